@@ -74,6 +74,10 @@ class RSocketClient(RSocketBase):
         self._reset_internals()
         self._start_tasks()
 
+        # Queue SETUP before the transport can become available: the sender starts writing as soon as the
+        # transport future is resolved, and requests may be issued while the transport is still connecting.
+        connected = await super().connect()
+
         try:
             await self._connect_new_transport()
         except RSocketNoAvailableTransport:
@@ -84,7 +88,7 @@ class RSocketClient(RSocketBase):
             await self._on_connection_error(exception)
             return
 
-        return await super().connect()
+        return connected
 
     async def _stop_tasks(self):
         await super()._stop_tasks()
